@@ -440,4 +440,6 @@ MUTANTS = [
     M("B8-2-split-at-3", ["C14"], (CP, "let (left, right) = value.split_at(2);", "let (left, right) = value.split_at(3);"), base="B8-2"),
     M("B8-2-same-half", ["C14"], (CP, "Ok(CardPair::new(parse_card(left)?, parse_card(right)?))", "Ok(CardPair::new(parse_card(left)?, parse_card(left)?))"), base="B8-2"),
     M("B8-2-no-ascii", ["C09"], (CP, "        if !value.is_ascii() {", "        if false {"), base="B8-2"),
+    M("benign-c01-flush-hash-rev", ["C01", "C07"], (MH, "    for card in cards.iter() {\n        if card.suit() == suit {", "    for card in cards.iter().rev() {\n        if card.suit() == suit {"), benign=True),
+    M("c01-flush-hash-skip", ["C01"], (MH, "    for card in cards.iter() {\n        if card.suit() == suit {", "    for card in cards.iter().skip(1) {\n        if card.suit() == suit {")),
 ]
